@@ -488,6 +488,145 @@ def closure_true_implies(P, clo):
     return subst_literals(acc, cap, P)
 
 
+_SET_LENS = ("HashSet::<T, S, A>::len", "BTreeSet::<T, A>::len", "HashSet::<T, S>::len", "BTreeSet::<T>::len")
+_VEC_LENS = ("Vec::<T, A>::len", "slice::<impl [T]>::len")
+
+
+def variant_census(P, t, list_param):
+    """Is `t` the number of distinct enum variants in use over the WHOLE list?  `list.iter().map(mem::discriminant)`
+    collected into a set and counted, or collected into a Vec, `dedup`ed and counted (runs of equal neighbours collapse:
+    one run is left exactly when all are equal; more than one run means two neighbours differ).  Either way
+    "count <= 1" says every element has the variant of the first."""
+    t = strip_sites(t)
+    if not (t.op == "call" and len(t.a[1]) == 1):
+        return False
+    n = B.cname(t)
+    x = t.a[1][0]
+    while x.op in ("ref", "deref"):
+        x = x.a[0]
+    if n in _VEC_LENS:
+        k = 0
+        while x.op == "call" and len(x.a[1]) == 1 and B.cname(x) in ("Vec::<T, A>::as_slice", "Deref::deref", "AsRef::as_ref") and k < 4:
+            x = x.a[1][0]
+            while x.op in ("ref", "deref"):
+                x = x.a[0]
+            k += 1
+        if not (x.op == "mutcall" and B.cname(x) == "Vec::<T, A>::dedup" and x.a[1] == 0 and len(x.a[2]) == 1):
+            return False
+        x = x.a[2][0]
+        while x.op in ("ref", "deref"):
+            x = x.a[0]
+    elif n not in _SET_LENS:
+        return False
+    if not (x.op == "call" and B.cname(x) in ("Iterator::collect", "FromIterator::from_iter") and len(x.a[1]) == 1):
+        return False
+    m = x.a[1][0]
+    if not (m.op == "call" and B.cname(m) == "Iterator::map" and len(m.a[1]) == 2):
+        return False
+    if covers_all(m.a[1][0], list_param) != "all":
+        return False
+    fnv = B.peel(m.a[1][1])
+    if fnv.op == "const" and fnv.a[0] == "fn" and fnv.a[1][0] in ("core::discriminant", "std::mem::discriminant", "core::mem::discriminant", "discriminant"):
+        return True
+    body = G.apply_closure(P, m.a[1][1], [])
+    if body is not None:
+        body = B.peel(strip_sites(body))
+        if body.op == "call" and B.cname(body).split("::")[-1] == "discriminant" and len(body.a[1]) == 1:
+            z = B.peel(body.a[1][0])
+            return z.op == "param" and z.a[0] >= 2
+    return False
+
+
+def census_says_uniform(P, lits, list_param):
+    """Among the literals: the variant census of the whole list is at most one."""
+    for atom, pol in lits:
+        if not (atom[0] == "atom" and atom[1] == "cmp"):
+            continue
+        op, a, b = atom[2], atom[3], atom[4]
+        c = B._const_int(b) if hasattr(b, "op") else None
+        if c is None or not hasattr(a, "op"):
+            continue
+        le1 = (op, c, pol) in (("Gt", 1, False), ("Ge", 2, False), ("Le", 1, True), ("Lt", 2, True), ("Eq", 1, True), ("Ne", 1, False), ("Eq", 0, True), ("Lt", 1, True))
+        if le1 and variant_census(P, a, list_param):
+            return True
+    return False
+
+
+def scheme_validation_loops(P, f, list_param):
+    """Loops over list[1..] (or the whole list) whose every iteration tests same_scheme(element, list[0]) and leaves the
+    function through Err when it is false: [(coverage, header, body blocks, exhaustion edges)]."""
+    ev = evaluate(f)
+    cfg = f.cfg
+    oks = set(ok_blocks(f))
+    errs = set(err_blocks(f))
+    out = []
+    for src_b, h in cfg.back_edges():
+        body = set(cfg.natural_loop(src_b, h))
+        srcs = [s_ for bb, s_ in loop_sources(f) if bb in body]
+        if len(srcs) != 1 or covers_all(srcs[0], list_param) not in ("all", "tail1"):
+            continue
+        for b in sorted(body):
+            t = f.blocks[b]["term"]
+            d = ev.switch.get(b)
+            if t["k"] != "switch" or d is None:
+                continue
+            fm = G.formula(d, P)
+            neg = False
+            if fm[0] == "not":
+                fm, neg = fm[1], True
+            if not (fm[0] == "atom" and fm[1] == "term" and fm[2].op == "call" and B.cname(fm[2]).endswith("::same_scheme")):
+                continue
+            xs = [B.peel(z) for z in fm[2].a[1]]
+
+            def of_list(z):
+                return z.op == "index" and B.peel(z.a[0]).op == "param" and B.peel(z.a[0]).a[1] == list_param
+
+            has0 = any(of_list(z) and B._const_int(z.a[1]) == 0 for z in xs)
+            rng = B.peel(strip_sites(srcs[0]))
+            while rng.op == "call" and B.cname(rng) == "IntoIterator::into_iter" and len(rng.a[1]) == 1:
+                rng = B.peel(rng.a[1][0])
+            by_index = rng.op == "agg" and rng.a[0][0] == "adt" and rng.a[0][1] == "Range"
+            if by_index:
+                has_elem = any(of_list(z) and any(y.op == "call" and B.cname(y) == "Iterator::next" for y in subterms(z.a[1])) for z in xs)
+            else:
+                has_elem = any(any(y.op == "call" and B.cname(y) == "Iterator::next" for y in subterms(z)) and not any(y.op == "index" for y in subterms(z)) for z in xs)
+            if not (has0 and has_elem):
+                continue
+            false_tgt = [tg for v, tg in t["arms"] if v == 0]
+            false_tgt = false_tgt[0] if false_tgt else None
+            bad_tgt = t["otherwise"] if neg else false_tgt
+            if bad_tgt is None:
+                continue
+            reach = cfg.reach_from(bad_tgt)
+            if (reach & errs) and not (reach & oks) and not (reach & {h}) and cfg.dominates(b, src_b):
+                # exhaustion edges: the None arm of the switch on the loop's Iterator::next
+                exh = set()
+                for b2 in body:
+                    t2 = f.blocks[b2]["term"]
+                    d2 = ev.switch.get(b2)
+                    if t2["k"] == "switch" and d2 is not None and d2.op == "discr" and B.peel(d2.a[0]).op == "call" and B.cname(B.peel(d2.a[0])) == "Iterator::next":
+                        for v, tg in t2["arms"]:
+                            if v == 0 and tg not in body:
+                                exh.add((b2, tg))
+                        if t2["otherwise"] not in body and all(v != 0 for v, _ in t2["arms"]) and any(v == 1 for v, _ in t2["arms"]):
+                            exh.add((b2, t2["otherwise"]))
+                out.append((covers_all(srcs[0], list_param), h, body, exh))
+    return out
+
+
+def _only_by_exhaustion(f, body, exh, target):
+    """Every edge that leaves the loop body towards `target` is one of the loop's exhaustion edges."""
+    cfg = f.cfg
+    for u in body:
+        for v in cfg.succ[u] if not isinstance(cfg.succ, dict) else cfg.succ.get(u, []):
+            v_ = v[0] if isinstance(v, tuple) else v
+            if v_ in body:
+                continue
+            if (target == v_ or target in cfg.reach_from(v_)) and (u, v_) not in exh:
+                return False
+    return True
+
+
 def check_same_scheme_guard(ctx, rule, P, fn_key, list_param):
     """Every accumulated element is first compared with the list's first element by same_scheme (mixed => Err):
     where the element is added, `same_scheme(elem, first)` holds - in a loop body or in a fold / try_fold closure."""
@@ -518,6 +657,8 @@ def check_same_scheme_guard(ctx, rule, P, fn_key, list_param):
                     x, y = [B.peel(z) for z in t.a[1]]
                     def elem(z):
                         # the loop element (an Iterator::next result) or the closure's item parameter
+                        if any(s.op == "index" and B.peel(s.a[0]).op == "param" and B.peel(s.a[0]).a[1] != list_param for s in subterms(z)):
+                            return False
                         if any(s.op == "call" and B.cname(s) == "Iterator::next" for s in subterms(z)):
                             return True
                         return a["mode"] != "loop" and any(s.op == "param" and s.a[0] >= 2 for s in subterms(z))
@@ -543,6 +684,17 @@ def check_same_scheme_guard(ctx, rule, P, fn_key, list_param):
                     implied |= closure_true_implies(P, atom[2].a[1][1])
                 is_item = lambda z: any(s_.op == "param" and s_.a[0] >= 2 for s_ in subterms(z))
                 hit = False
+                # adjacent pairs: `list.windows(2).all(|w| w[0].same_scheme(&w[1]))` - every element has the scheme of its
+                # neighbour, hence (by transitivity of "same variant") of the first
+                qsrc = B.peel(strip_sites(atom[2].a[1][0]))
+                if qsrc.op == "call" and B.cname(qsrc) == "slice::<impl [T]>::windows" and len(qsrc.a[1]) == 2 and B._const_int(qsrc.a[1][1]) == 2 and covers_all(qsrc.a[1][0], list_param) == "all":
+                    for at2, pol2 in implied:
+                        if pol2 and at2[0] == "atom" and at2[1] == "term" and at2[2].op == "call" and B.cname(at2[2]).endswith("::same_scheme") and len(at2[2].a[1]) == 2:
+                            idx = sorted(B._const_int(z.a[1]) if z.op == "index" else (B._const_int(z.a[1][1]) if z.op == "call" and B.cname(z) == "Index::index" else -1) for z in [B.peel(q) for q in at2[2].a[1]])
+                            if idx == [0, 1]:
+                                good = True
+                    if good:
+                        break
                 for at2, pol2 in implied:
                     if pol2 and at2[0] == "atom" and at2[1] == "term" and at2[2].op == "call" and B.cname(at2[2]).endswith("::same_scheme") and len(at2[2].a[1]) == 2:
                         x, y = [B.peel(z) for z in at2[2].a[1]]
@@ -554,6 +706,18 @@ def check_same_scheme_guard(ctx, rule, P, fn_key, list_param):
                 acov = covers_all(a["source"], list_param) if a.get("source") is not None else None
                 if qcov is not None and (qcov == acov or qcov == "all"):
                     good = True
+        if not good:
+            # a validation pass of its own: an earlier loop over the same range (or the whole list) compares every element
+            # with the first and leaves through Err on a mismatch; the accumulation is reached only over its exhaustion edge
+            vl = scheme_validation_loops(P, fn, list_param)
+            acov = covers_all(a["source"], list_param) if a.get("source") is not None else None
+            site_fn, site_bb = (a["fn"], a["bb"]) if a["mode"] == "loop" else (fn, a.get("site_bb"))
+            for cov_, h_, body_, exh_ in vl:
+                if site_fn is fn and site_bb is not None and site_bb not in body_ and (cov_ == "all" or cov_ == acov) and _only_by_exhaustion(fn, body_, exh_, site_bb):
+                    good = True
+        if not good and census_says_uniform(P, list(a["lits"]) + list(a.get("outer") or []), list_param):
+            # `sigs.iter().map(mem::discriminant)` collected into a set (or a dedup'ed Vec) has at most one entry
+            good = True
         ok = ok and good
     return ctx.ob(rule, fn_key + "/same_scheme", ok, "every accumulated element is first compared with %s[0] by same_scheme (mixed schemes => Err) [%s]" % (list_param, ", ".join(a["mode"] for a in accs)), where=where(accs[0]["fn"], accs[0]["bb"]))
 
@@ -583,6 +747,16 @@ def covers_all(src, list_param):
         rng = B.peel(t.a[1][1])
         if base.op == "param" and base.a[1] == list_param and rng.op == "agg" and rng.a[0][1] == "RangeFrom" and B._const_int(rng.a[1][0]) == 1:
             return "tail1"
+    if t.op == "agg" and t.a[0][0] == "adt" and t.a[0][1] == "Range" and len(t.a[1]) == 2:
+        # `for i in 0..list.len()` / `1..list.len()`: the positions of the list (that the element used is list[i] is
+        # the accumulator's / the guard's business, see flow.accumulators)
+        e = B.peel(t.a[1][1])
+        if e.op == "call" and B.cname(e) in ("slice::<impl [T]>::len", "Vec::<T, A>::len") and len(e.a[1]) == 1 and B.peel(e.a[1][0]).op == "param" and B.peel(e.a[1][0]).a[1] == list_param:
+            c = B._const_int(t.a[1][0])
+            if c == 0:
+                return "all"
+            if c == 1:
+                return "tail1"
     if t.op == "subslice" and t.a[3] is True and t.a[1] == 1 and t.a[2] == 0:
         # `[first, rest @ ..]` slice pattern: rest = list[1..]
         base = B.peel(t.a[0])
